@@ -212,6 +212,11 @@ class World:
         body = copy.deepcopy(self.server.obj if body is None else body)
         orig = api.patch
         api.patch = self.server.patch
+        from kopf._core.actions import progression as _progression
+        orig_dt = _progression.datetime
+        if orig_dt.__name__ == 'datetime' and getattr(orig_dt, '__file__', None):   # the real module: go virtual
+            from vkopf import vclock
+            _progression.datetime = vclock.module
         try:
             return await processing.process_resource_event(
                 lifecycle=self.lifecycle, indexers=self.indexers, registry=self.registry,
@@ -220,6 +225,7 @@ class World:
                 event_queue=asyncio.Queue(), no_throttling=kw.pop('no_throttling', True), **kw)
         finally:
             api.patch = orig
+            _progression.datetime = orig_dt
 
     def run(self, coro, **kw):
         return self.loop.run(coro, **kw)
